@@ -481,9 +481,12 @@ class C17(CheckBase):
         import geodepy.ntv2reader as nr
         import geodepy.transform as tf
         self.nr, self.tf = nr, tf
-        self.sut_files = (nr.__file__, tf.__file__)
+        import os
+        import sys
+        self.pkg_dir = os.path.dirname(os.path.abspath(nr.__file__)) + os.sep
         from detsim.sched import wrap_module_locks
-        wrap_module_locks([nr, tf])
+        wrap_module_locks([m for n, m in sorted(sys.modules.items())
+                           if m is not None and (n == 'geodepy' or n.startswith('geodepy.')) and not n.startswith('geodepy.tests')])
         self.real_open = open
 
     # ---------------------------------------------------------------- generate
@@ -883,7 +886,12 @@ class C17(CheckBase):
                         V('metadata', 'subgrid.' + k, {'subgrid': s['name'], 'written': lit, 'read': repr(got)})
 
     def is_sut_file(self, fn):
-        return fn in self.sut_files
+        return fn.startswith(self.pkg_dir)
+
+    def hash_order_sensitive(self, trace):
+        # interpolate_ntv2 iterates a set() of the names of the sub-grids containing the point: the number of
+        # lines it executes - hence where a pre-emption point falls - depends on the string hash seed
+        return any(o.get('kind') == 'concurrent' for o in trace.get('ops', []))
 
     def _call(self, op, grid):
         lat, lon = op['lat'], op['lon']
@@ -916,10 +924,10 @@ class C17(CheckBase):
             try:
                 os.close(rd)
                 n = [0]
-                files = self.sut_files
+                is_sut = self.is_sut_file
 
                 def g(frame, event, arg):
-                    return l if frame.f_code.co_filename in files else None
+                    return l if is_sut(frame.f_code.co_filename) else None
 
                 def l(frame, event, arg):
                     if event == 'line':
